@@ -124,7 +124,9 @@ theorem hunTDSteps_frame (k : String) : ∀ (as : List Attr) (res : List (Obj ×
       split
       · rw [ih', h1]
       · split
-        · rw [ih', h1]
+        · split
+          · rw [ih', dlookup_dictSet_str, if_neg (hb.2 hi), h1]
+          · rw [ih', h1]
         · rw [ih', dlookup_dictSet_str, if_neg (hb.2 hi), h1]
 
 /-- an absent key that no remaining step assigns stays absent -/
@@ -149,7 +151,11 @@ theorem hunTDSteps_none (k : String) : ∀ (as : List Attr) (res : List (Obj × 
       split
       · exact ih' _ h1
       · split
-        · exact ih' _ h1
+        · split
+          · apply ih'
+            rw [dlookup_dictSet_str, if_neg (h b (List.mem_cons_self ..) hi)]
+            exact h1
+          · exact ih' _ h1
         · apply ih'
           rw [dlookup_dictSet_str, if_neg (h b (List.mem_cons_self ..) hi)]
           exact h1
@@ -160,14 +166,16 @@ theorem hunTDSteps_main (hid : ∀ t v, unIsId t = true → un t v = v) : ∀ (a
     TDFacts hc as →
     (∀ b ∈ as, dlookup res (.str b.name) = dlookup inst (.str b.name)) →
     (∀ b ∈ as, tdIncluded hc b = true → ∀ r, (ovOf hc b).rename = some r → dlookup res (.str r) = none) →
+    (∀ b ∈ as, tdIncluded hc b = true → b.required = true → (dlookup inst (.str b.name)).isSome = true) →
     ∀ a ∈ as, tdIncluded hc a = true →
       dlookup (hunTDSteps un unIsId hc inst as res) (.str (tdKey hc a)) =
         (dlookup inst (.str a.name)).map (attrUn un (ovOf hc a) a) := by
   intro as
   induction as with
-  | nil => intro res _ _ _ a ha; cases ha
+  | nil => intro res _ _ _ _ a ha; cases ha
   | cons b as ih =>
-    intro res hf h2 h3 a ha hia
+    intro res hf h2 h3 hreq a ha hia
+    have hreqt := fun c hc' => hreq c (List.mem_cons_of_mem _ hc')
     have hft := hf.tail
     -- invariants are preserved by the step of `b`
     have keep2 : ∀ (res' : List (Obj × Obj)),
@@ -209,7 +217,11 @@ theorem hunTDSteps_main (hid : ∀ t v, unIsId t = true → un t v = v) : ∀ (a
           | some v => simp [attrUn, hskip.1, hid _ v hskip.2]
         · cases hl : dlookup inst (.str a.name) with
           | none =>
-            simp only [Option.map_none]
+            have hnr : a.required = false := by
+              cases hq : a.required with
+              | false => rfl
+              | true => have := hreq a (List.mem_cons_self ..) hia hq; rw [hl] at this; cases this
+            simp only [Option.map_none, hnr, Bool.false_eq_true, if_false]
             rw [hframe, hk, h2 a (List.mem_cons_self ..), hl]
           | some v =>
             simp only [Option.map_some]
@@ -219,7 +231,11 @@ theorem hunTDSteps_main (hid : ∀ t v, unIsId t = true → un t v = v) : ∀ (a
         simp only [Option.isSome_some, if_true, Option.isNone_some, Bool.and_false, Bool.false_eq_true, if_false]
         cases hl : dlookup inst (.str a.name) with
         | none =>
-          simp only [Option.map_none]
+          have hnr : a.required = false := by
+            cases hq : a.required with
+            | false => rfl
+            | true => have := hreq a (List.mem_cons_self ..) hia hq; rw [hl] at this; cases this
+          simp only [Option.map_none, hnr, Bool.false_eq_true, if_false]
           rw [hframe, hk]
           exact dlookup_dictDel_none _ _ (h3 a (List.mem_cons_self ..) hia r hr)
         | some v =>
@@ -230,7 +246,7 @@ theorem hunTDSteps_main (hid : ∀ t v, unIsId t = true → un t v = v) : ∀ (a
           dlookup (hunTDSteps un unIsId hc inst as res') (.str (tdKey hc a)) = (dlookup inst (.str a.name)).map (attrUn un (ovOf hc a) a) := by
         intro res' hfr
         obtain ⟨k2, k3⟩ := keep2 res' hfr
-        exact ih res' hft k2 k3 a hat hia
+        exact ih res' hft k2 k3 hreqt a hat hia
       have hdel : ∀ k, k ≠ b.name → dlookup (dictDel res (.str b.name)) (.str k) = dlookup res (.str k) :=
         fun k hk => dlookup_dictDel_str_other _ (fun e => hk e.symm)
       have hres1 : ∀ k, k ≠ b.name →
@@ -247,7 +263,11 @@ theorem hunTDSteps_main (hid : ∀ t v, unIsId t = true → un t v = v) : ∀ (a
         split
         · exact hstep _ (fun k hk _ => hres1 k hk)
         · split
-          · exact hstep _ (fun k hk _ => hres1 k hk)
+          · split
+            · apply hstep
+              intro k hk hkk
+              rw [dlookup_dictSet_str, if_neg (fun e => hkk hib e.symm), hres1 k hk]
+            · exact hstep _ (fun k hk _ => hres1 k hk)
           · apply hstep
             intro k hk hkk
             rw [dlookup_dictSet_str, if_neg (fun e => hkk hib e.symm), hres1 k hk]
@@ -428,7 +448,7 @@ theorem hstTDD_hunTD (un : UnFn) (unIsId : Option Ty → Bool) (st : StFn) (ci :
       ∀ a ∈ c.attrs, tdIncluded c.hc a = true →
         dlookup res (.str a.name) = (dlookup inst (.str a.name)).map (rt a) := by
   obtain ⟨hf, -⟩ := consistentTD_facts hcons
-  have hP := hunTDSteps_main un unIsId c.hc inst hid c.attrs inst hf (fun _ _ => rfl) hfree
+  have hP := hunTDSteps_main un unIsId c.hc inst hid c.attrs inst hf (fun _ _ => rfl) hfree hreq
   obtain ⟨e1, e2⟩ := hstTDStepsD_main st c.hc (hunTDSteps un unIsId c.hc inst c.attrs inst) un inst rt c.attrs
     (hunTDSteps un unIsId c.hc inst c.attrs inst) hf hP hreq hrt (fun _ _ _ => rfl)
   refine ⟨(hstTDStepsD st c.hc (hunTDSteps un unIsId c.hc inst c.attrs inst) c.attrs
@@ -646,7 +666,7 @@ theorem hstTDF_hunTD (un : UnFn) (unIsId : Option Ty → Bool) (st : StFn) (ci :
       ∀ a ∈ c.attrs, tdIncluded c.hc a = true →
         dlookup res (.str a.name) = (dlookup inst (.str a.name)).map (rt a) := by
   obtain ⟨hf, -⟩ := consistentTD_facts hcons
-  have hP := hunTDSteps_main un unIsId c.hc inst hid c.attrs inst hf (fun _ _ => rfl) hfree
+  have hP := hunTDSteps_main un unIsId c.hc inst hid c.attrs inst hf (fun _ _ => rfl) hfree hreq
   obtain ⟨r1, a0, a1, a2⟩ := hstTDStepsF_main st c.hc (hunTDSteps un unIsId c.hc inst c.attrs inst) un inst rt c.attrs
     (hunTDSteps un unIsId c.hc inst c.attrs inst) hf hP hreq hrt (fun _ _ _ => rfl)
   obtain ⟨r2, b0, b1, b2⟩ := hstTDOptF_main st c.hc (hunTDSteps un unIsId c.hc inst c.attrs inst) un inst rt c.attrs
